@@ -383,8 +383,14 @@ func (w *world) exec(op string) (string, string) {
 		})
 		return op, c.observe("ok")
 	case "deliver":
+		if _, ok := hx.KV(ws, "k"); !ok {
+			return op, "bad-op"
+		}
 		k := hx.KVInt(ws, "k")
 		kind, _ := hx.KV(ws, "kind")
+		if !validKind(kind) {
+			return op, "bad-op"
+		}
 		wv := hx.KVInt(ws, "w")
 		w.mu.Lock()
 		req := c.recv[k]
@@ -409,12 +415,21 @@ func (w *world) exec(op string) (string, string) {
 		synctest.Wait()
 		return op, c.observe("ok")
 	case "inject":
+		if _, ok := hx.KV(ws, "id"); !ok {
+			return op, "bad-op"
+		}
 		id := hx.KVInt(ws, "id")
 		kind, _ := hx.KV(ws, "kind")
+		if !validKind(kind) {
+			return op, "bad-op"
+		}
 		w.sys.Root.Send(c.pid, mkResponse(int32(id), kind, hx.KVInt(ws, "w")))
 		synctest.Wait()
 		return op, c.observe("ok")
 	case "adv":
+		if _, ok := hx.KV(ws, "dt"); !ok {
+			return op, "bad-op"
+		}
 		dt := hx.KVInt(ws, "dt")
 		c.mu.Lock()
 		c.order = nil
@@ -428,6 +443,8 @@ func (w *world) exec(op string) (string, string) {
 	}
 	return op, "bad-op"
 }
+
+func validKind(k string) bool { return k == "ok" || k == "nil" || k == "err" || k == "bad" }
 
 func protoMarshalHello(v int32) ([]byte, error) {
 	// field 1 (I), varint
@@ -539,21 +556,36 @@ func (g *gen) genCase(run func(string)) {
 		target = 1 + r.Intn(4)
 	}
 	steps := 10 + r.Intn(70)
+	if r.Intn(3) == 0 {
+		// burst: many requests outstanding at once, issued over a few ms
+		h.Count("case.burst")
+		for j := 0; j < target; j++ {
+			run("req s=" + g.act(0))
+			if r.Intn(6) == 0 {
+				run("adv dt=" + strconv.Itoa(1+r.Intn(400)))
+			}
+		}
+	}
 	for i := 0; i < steps; i++ {
 		c := g.w.cur
 		out := c.outstanding()
 		x := r.Intn(100)
 		switch {
-		case x < 10 && r.Intn(3) != 0 && len(out) == 0 || (len(out) < target && x < 45):
+		case len(out) < target && x < 45:
 			a := g.act(0)
 			h.Count("op.req." + a[:1])
 			run("req s=" + a)
 		case x < 50:
-			if r.Intn(3) == 0 {
+			switch y := r.Intn(12); {
+			case y < 5:
 				run("adv dt=" + strconv.Itoa(1+r.Intn(999)))
-			} else {
+			case y < 10:
 				h.Count("op.noroute")
 				run(fmt.Sprintf("noroute cb=%d", r.Intn(2)))
+			default:
+				// malformed op lines: both sides must reject them without touching the state
+				h.Count("op.malformed")
+				run([]string{"req s=", "req s=RR", "req s=(", "deliver k=0 kind=zzz w=1", "inject kind=ok w=1", "adv", "frobnicate"}[r.Intn(7)])
 			}
 		case x < 72:
 			// reply: mostly to an outstanding request; sometimes a duplicate / late reply / reply to a notify or unknown tag
@@ -628,6 +660,46 @@ func (g *gen) genCase(run func(string)) {
 	}
 }
 
+// countObs: histogram of what the implementation actually did (reach of the generator).
+func countObs(h *hx.T, op, obs string) {
+	ws := hx.Words(obs)
+	cb, _ := hx.KV(ws, "cb")
+	if cb != "" {
+		nt := 0
+		for _, e := range strings.Split(cb, ",") {
+			parts := strings.SplitN(e, ":", 3)
+			if len(parts) < 2 {
+				continue
+			}
+			cls := parts[1]
+			if i := strings.IndexByte(cls, '@'); i >= 0 {
+				cls = cls[:i]
+			}
+			h.Count("seen.cb." + cls)
+			if cls == "timeout" {
+				nt++
+			}
+		}
+		if nt >= 2 {
+			h.Count("seen.scan.multi-timeout")
+		}
+		if strings.HasPrefix(op, "adv") && strings.Contains(obs, " iss=") && !strings.Contains(obs, " iss= ") {
+			h.Count("seen.scan.callback-issued-requests")
+		}
+	} else if strings.HasPrefix(op, "deliver") && strings.HasPrefix(obs, "ok ") {
+		h.Count("seen.deliver.no-callback(late/dup/notify/nilcb)")
+	}
+	if p, _ := hx.KV(ws, "pend"); p != "" {
+		n := strings.Count(p, ",") + 1
+		switch {
+		case n >= 30:
+			h.Count("seen.pending>=30")
+		case n >= 10:
+			h.Count("seen.pending>=10")
+		}
+	}
+}
+
 func stripOrder(op string) string {
 	if strings.HasPrefix(op, "adv ") {
 		if i := strings.Index(op, " order="); i >= 0 {
@@ -643,6 +715,7 @@ func TestRun(t *testing.T) {
 		w := newWorld()
 		run := func(op string) {
 			rec, obs := w.exec(stripOrder(op))
+			countObs(h, rec, obs)
 			h.Emit(rec, obs)
 			h.Flush() // a crash of the code under test must not lose the ops that led to it
 		}
@@ -692,4 +765,47 @@ func TestWrapByAlloc(t *testing.T) {
 	run(5, 5)
 	run(maxReqId+6, 12)
 	h.Count("allocrun")
+}
+
+// TestEnum (thorough tier): every op sequence of length 4 over a 10-letter
+// alphabet (two request shapes, a failing one, a notify, replies to the first
+// two instances, a raw response, two clock steps that together cross the deadline).
+func TestEnum(t *testing.T) {
+	synctest.Test(t, func(t *testing.T) {
+		h := hx.Open()
+		w := newWorld()
+		alpha := []string{"req s=R", "req s=r", "req s=F(R)", "req s=N", "deliver k=0 kind=ok w=7", "deliver k=1 kind=err w=8",
+			"deliver k=0 kind=bad w=0", "inject id=2 kind=nil w=0", "adv dt=15500", "adv dt=15501"}
+		L := hx.EnvInt("VERIF_ENUM_LEN", 4)
+		idx := make([]int, L)
+		n := 0
+		for {
+			rec, obs := w.exec("reset")
+			h.Emit(rec, obs)
+			for _, i := range idx {
+				rec, obs := w.exec(alpha[i])
+				h.Emit(rec, obs)
+			}
+			rec, obs = w.exec("adv dt=31000")
+			h.Emit(rec, obs)
+			h.Flush()
+			n++
+			j := L - 1
+			for j >= 0 {
+				idx[j]++
+				if idx[j] < len(alpha) {
+					break
+				}
+				idx[j] = 0
+				j--
+			}
+			if j < 0 {
+				break
+			}
+		}
+		h.Stats["exhaustive.sequences.len4.alphabet10"] = n
+		h.Close()
+		os.Stdout.Sync()
+		syscall.Exit(0)
+	})
 }
